@@ -33,6 +33,10 @@ RULE = (
     "and calls on singular inputs (zero vector, on-axis, light-like, beta = 1, division by zero). Invariant after every call, "
     "returned or raised: numpy.geterr(), numpy.geterrcall(), warnings.filters, numpy.get_printoptions(), awkward.behavior "
     "(keys and value identities), vector.backends.awkward.behavior, vector._awkward_registered are exactly as before the call. "
+    "Every call of a history is evaluated again afterwards in reverse order and (a sample / all in thorough) in a fresh "
+    "interpreter: outcomes must be identical (no result cache, no state carried between calls). Cells 'sweep': every catalogued "
+    "operation in every coordinate-system signature once, state compared around each call. Cells 'hooks': every operator / ufunc / "
+    "reduction entry point of every backend from 16 threads, process-wide state compared around the threaded phase. "
     "Cells 'register' (own processes): register_awkward()/register_numba() twice - the second call changes nothing. Cells "
     "'threads': a generated list of calls evaluated sequentially, then partitioned over 16 threads released by a barrier with "
     "sys.setswitchinterval(1e-6), several partitions; results must be bit-identical to the sequential ones and each thread's "
